@@ -123,6 +123,14 @@ impl World for OnceWorld {
                             format!("V{}", p.0)
                         }), OK::Init, Some(g), step);
                     }
+                    "trypc" => {
+                        // get_or_try_init with a closure that panics when it is CALLED (not when its future is polled)
+                        let fid = self.nf;
+                        self.add(Box::pin(async move {
+                            match c.get_or_try_init(move || -> GateFut { panic!("initialiser closure panicked when called") }).await { Ok(p) => format!("V{}", p.0), Err(e) => format!("E{}", e) }
+                        }), OK::Try, None, step);
+                        self.resolved_by.insert(fid, Outcome::Panic);
+                    }
                     "set" => {
                         let x = num(2).unwrap() as u64;
                         let p = Payload(x);
@@ -133,6 +141,18 @@ impl World for OnceWorld {
                     _ => return "X".into(),
                 }
                 "-".into()
+            }
+            "initb" => {
+                // get_or_init_blocking with a closure that completes at once; only issued when nobody is initialising
+                // (it would block the thread otherwise). It uses up one future id (the model replays it as a future).
+                let x = match num(1) { Some(x) => x as u64, None => return "X".into() };
+                let c = self.cellref();
+                if c.verif_state().0 == 1 { return "X".into(); }
+                self.nf += 1;
+                match std::panic::catch_unwind(std::panic::AssertUnwindSafe(|| c.get_or_init_blocking(|| Payload(x)).0)) {
+                    Ok(v) => format!("V{}", v),
+                    Err(_) => "!".into(),
+                }
             }
             "poll" => {
                 let (f, k) = match (num(1), num(2)) { (Some(f), Some(k)) if k < 4 => (f, k), _ => return "X".into() };
@@ -161,7 +181,7 @@ impl World for OnceWorld {
                     _ => return "X".into(),
                 };
                 if self.metas[&f].st == St::Done { return "X".into(); }
-                let g = self.gates[&f].clone();
+                let g = match self.gates.get(&f) { Some(g) => g.clone(), None => return "X".into() };
                 let mut g = g.borrow_mut();
                 if g.outcome.is_some() { return "X".into(); }
                 g.outcome = Some(o);
@@ -201,7 +221,8 @@ impl World for OnceWorld {
                 if futs.len() >= 6 { continue } else { "wait".into() }
             } else if c < 26 {
                 if futs.len() >= 6 { continue } else {
-                    match rng.below(3) { 0 => "init try".to_string(), 1 => "init init".to_string(), _ => format!("init set {}", 100 + self.nf) }
+                    match rng.below(8) { 0 | 1 => "init try".to_string(), 2 | 3 => "init init".to_string(), 4 => "init trypc".to_string(),
+                                         5 => format!("initb {}", 400 + self.nf), _ => format!("init set {}", 100 + self.nf) }
                 }
             } else if c < 56 {
                 match rng.pick(&live) {
@@ -240,6 +261,8 @@ impl World for OnceWorld {
             v.push("wait".into());
             v.push("init try".into());
             v.push(format!("init set {}", 100 + self.nf));
+            v.push("init trypc".into());
+            v.push(format!("initb {}", 400 + self.nf));
         }
         for (f, m) in &self.metas {
             if m.st != St::Done {
@@ -283,6 +306,15 @@ impl World for OnceWorld {
                 }
             }
             r.w.value = cur;
+        }
+        if toks[0] == "initb" && res.starts_with('V') {
+            let v: u64 = res[1..].parse().unwrap();
+            if Some(v) != r.w.value {
+                r.violation("C04", format!("get_or_init_blocking returned value {} but the cell holds {:?}", v, r.w.value));
+            }
+        }
+        if toks[0] == "initb" && res == "!" {
+            r.violation("C08", format!("get_or_init_blocking panicked although its closure did not"));
         }
         // results of completed futures
         if toks[0] == "poll" && (res.starts_with('V') || res.starts_with('E') || res == "!") {
